@@ -283,7 +283,8 @@ def export_digest(obj):
     import xarray as xr
 
     if isinstance(obj, xr.Dataset):
-        return dig(obj)
+        # the Exodus bookkeeping variables carry the wall-clock time of the export
+        return dig(obj.drop_vars([v for v in ("qa_records", "time_whole") if v in obj.variables]))
     if hasattr(obj, "get_paths"):  # matplotlib collection
         return [dig(np.asarray(p.vertices)) for p in obj.get_paths()]
     if hasattr(obj, "columns"):
